@@ -299,6 +299,10 @@ std::istream& operator >> (std::istream& is, Estimate<T,U>& estimate)
   double error;
   is >> error;
 
+  // a missing or malformed error leaves the destination unchanged
+  if (!is)
+    return is;
+
   if (bracketed) 
   {
     if (!expect(is, ')'))
